@@ -28,9 +28,11 @@ fn run(case: &Sx) -> Sx {
     };
     // "adv2" is the adversarial ArrayKind in its second mode
     let mut owned: Vec<Sx> = l[1..].to_vec();
-    let is2 = owned.first().and_then(d_sym) == Some("adv2");
-    adv::MODE.store(if is2 { 1 } else { 0 }, std::sync::atomic::Ordering::Relaxed);
-    if is2 {
+    let bsym = owned.first().and_then(d_sym).map(|s| s.to_string());
+    let is2 = bsym.as_deref() == Some("adv2");
+    let is3 = bsym.as_deref() == Some("adv3");
+    adv::MODE.store(if is3 { 2 } else if is2 { 1 } else { 0 }, std::sync::atomic::Ordering::Relaxed);
+    if is2 || is3 {
         owned[0] = sym("adv");
     }
     let args = &owned[..];
@@ -56,7 +58,7 @@ fn run(case: &Sx) -> Sx {
 }
 
 fn main() {
-    std::panic::set_hook(Box::new(|_| {}));
+    if std::env::var("OHG_PANIC_MSG").is_err() { std::panic::set_hook(Box::new(|_| {})); }
     let stdin = std::io::stdin();
     let stdout = std::io::stdout();
     let mut out = std::io::BufWriter::new(stdout.lock());
